@@ -20,6 +20,11 @@ THEOREMS = [
     "C15_fieldless_member_refuted", "C15_dialect_priority_refuted", "C15_union_order_observable", "C15_union_container_refuted",
 ]
 
+FORMAT_THEOREMS = [
+    "C15_format_agree_partial", "C15_format_agree_plain_partial", "C15_format_codec_list", "C15_format_codec_dict",
+    "C15_format_decode_agree", "C15_format_decode_agree_data", "C15_format_priority_refuted",
+]
+
 CASE_TYPE = "env * (bool * mode * opts) * ty * val * res val"
 RUN = ("(fun c => match c with (E, (isp, m, dl), t, v, ex) => "
        "(if isp then run_pack_o E m dl t v else run_unpack E m t v) end)")
@@ -1174,6 +1179,12 @@ def run(ctx: vlib.Ctx):
 
     for (sc, vals, src, mod) in loaded:
         L.unload_module(mod)
+
+    # ---------------- (M) correspondence of the format part of the model (C15Format.v over the K2/K13 kernels)
+    ctx.theorems("props/C15_formats.vo", FORMAT_THEOREMS, kernels=["K2", "K13"])
+    from harness import c15fmt_tie
+    tied_for_formats = [(sc, vals) for (sc, vals, src, mod) in loaded if not sc.wide and "~" not in str(sc.sid) and not str(sc.sid).startswith("fx")]
+    c15fmt_tie.run_format_tie(ctx, tied_for_formats, ctx.budget(10, 60))
 
     # ---------------- oracle 4: format mixins vs format codecs under user dialects (outside the Coq model)
     from harness import c15fmt
